@@ -94,6 +94,9 @@ func (v *VStruct) Valid(src interface{}) error {
 	}
 
 	reflectValue := RemoveValuePtr(reflect.ValueOf(src))
+	if !reflectValue.IsValid() { // 如: (*T)(nil)
+		return errors.New("src is nil")
+	}
 	switch reflectValue.Kind() {
 	case reflect.Ptr:
 		if reflectValue.IsNil() {
@@ -134,6 +137,9 @@ func (v *VStruct) getValidFn(validName string) (CommonValidFn, error) {
 // isValidGatherObj 是否验证集合对象, 包含: slice/array/map
 func (v *VStruct) validate(structName string, value reflect.Value, isValidGatherObj ...bool) *VStruct {
 	tv := RemoveValuePtr(value)
+	if !tv.IsValid() { // nil 指针(如: []*T{nil}), 没有内容可验证
+		return v
+	}
 	ty := tv.Type()
 	// fmt.Printf("ty: %v, structName: %q\n", ty, structName)
 	// 如果不是结构体就退出
